@@ -78,9 +78,9 @@ def floor_divide(
     if not x2.isconstant():
         raise numpoly.FeatureNotSupported(DIVIDE_ERROR_MSG)
     x2 = x2.tonumpy()
-    dtype = numpy.common_type(x1, x2)
-    if x1.dtype == x2.dtype == "int64":
-        dtype = "int64"
+    dtype = numpy.floor_divide(
+        numpy.empty(0, dtype=x1.dtype), numpy.empty(0, dtype=x2.dtype)
+    ).dtype
     no_output = out is None
     if out is None:
         out = numpoly.ndpoly(
